@@ -36,6 +36,11 @@ func scenario(w *sim.World) {
 	n := 1 + w.Choose(sim.KCfg, 8)
 	fifo := w.Choose(sim.KCfg, 2) == 1
 	wd := env.NewWorld(w)
+	if w.Choose(sim.KCfg, 2) == 1 {
+		// injected refusals: an environment resource aborts an attempt at a drawn operation (no step in the spec)
+		wd.FaultBudget = 1 + w.Choose(sim.KCfg, 6)
+		w.Probe("env_refusals_enabled")
+	}
 	s := envsys.NewLockSvc(wd, n, fifo)
 	w.Event("cfg clients=%d fifo=%v", n, fifo)
 	desc := fmt.Sprintf("clients=%d fifo=%v", n, fifo)
